@@ -37,11 +37,14 @@ def sub (s : Str) (a b : Nat) : Str := (s.drop a).take (b - a)
 def removeSpace (s : Str) : Str := s.filter (fun c => !isSpaceC c)
 
 /-- `int(text)` for the texts that occur here: a non-empty run of decimal digits (any script) -/
+def pyIntStep (acc : Option Nat) (c : Char) : Option Nat :=
+  match acc, digitVal c with
+  | some n, some d => some (10 * n + d)
+  | _, _ => none
+
 def pyInt (s : Str) : Except PyErr Nat :=
   if s.isEmpty then .error .valueError else
-  match s.foldl (fun (acc : Option Nat) c => match acc, digitVal c with
-      | some n, some d => some (10 * n + d)
-      | _, _ => none) (some 0) with
+  match s.foldl pyIntStep (some 0) with
   | some n => .ok n
   | none => .error .valueError
 
